@@ -91,7 +91,31 @@ class Lock:
 # --------------------------------------------------------------------------------------------
 # stage 1: translate generated Rust -> Lean data (+ harness glue)
 
-def translate_all(ctx):
+def translate_all(ctx, probes=()):
+    """Everything under lean/Rspirv/Generated is regenerated from the working tree on every run of every check: the
+    translated sources (`translate_sources`) and the table extracted by executing the finite-domain functions
+    (`Generated/Extracted.lean`: the reflect predicates on every opcode) — a check that reused an extraction made by an
+    earlier run would judge the current tree against an older one. Caller holds the build lock."""
+    T, fails = translate_sources(ctx)
+    from props import common as _common
+    import extract_read
+    ok, err = build_harness(ctx, bins=("extract",))
+    ext = None
+    if ok:
+        try:
+            ext = extract_read.parse(run_extract(ctx, list(probes)))
+            lean_emit.emit_extracted(ext, "Rspirv.Generated.Extracted", GEN + "/Extracted.lean",
+                                     "extracted by executing grammar::reflect on every opcode")
+        except RuntimeError as e:
+            ctx.data["harness_error"] = str(e)
+    else:
+        ctx.data["harness_error"] = err
+    ctx.data["ext"] = ext
+    _common.emit_findings(ctx, ext)
+    return T, fails
+
+
+def translate_sources(ctx):
     """Returns dict of translated python data; failures are recorded as broken `translate:` obligations
     (a broken tie, not a crash)."""
     from translate import spirv_header, grammar_tables
